@@ -30,7 +30,7 @@ SPEC = dict(
     ],
 )
 
-PROGRAMS = ("empty-param", "mtl-noshared", "matrix", "gen-inputs", "shared-subexpr", "sum-heads", "equal-sized", "unrequested", "unreachable", "nograd-leaf", "mtl", "mtl-shared-taskparam", "mtl-unreachable")
+PROGRAMS = ("strided-leaf", "mtl-strided", "grad-weights", "empty-param", "mtl-noshared", "matrix", "gen-inputs", "shared-subexpr", "sum-heads", "equal-sized", "unrequested", "unreachable", "nograd-leaf", "mtl", "mtl-shared-taskparam", "mtl-unreachable")
 DETERMINISM_SLICE = 4
 
 
@@ -63,7 +63,32 @@ def _build(prog, aggname):
         inner = Constant(torch.tensor([1.0, -2.0, 3.0, 5.0][:m], dtype=torch.float64)) if aggname == "const" else UPGrad()
         return RecordingAggregator(inner)
 
-    if prog == "empty-param":  # a requested parameter with zero elements: its .grad is created (empty) like any other
+    if prog == "strided-leaf":  # a leaf stored transposed (dense, non-contiguous) and a contiguous one whose gradient arrives transposed
+        Wt = torch.tensor([[0.5, -1.0, 2.0], [1.5, 0.25, -0.75]], dtype=torch.float64).t().requires_grad_()  # shape (3, 2), strides (1, 3)
+        V = T([[1.0, 2.0, -1.0], [0.5, -0.5, 3.0]])
+        outs = [(Wt * V.t()).sum() * c, (Wt * Wt).sum() + (V.t() * V.t() * Wt.detach()).sum()]
+        req, inter = [Wt, V, c], outs
+        call = lambda k, agg: backward(outs, agg, inputs=req, retain_graph=True, parallel_chunk_size=k)  # noqa: E731
+        m = 2
+    elif prog == "mtl-strided":  # the same layouts in mtl_backward: transposed shared leaf, task parameter used through its transpose
+        Wt = torch.tensor([[0.5, -1.0, 2.0], [1.5, 0.25, -0.75]], dtype=torch.float64).t().requires_grad_()
+        V = T([[1.0, 2.0, -1.0], [0.5, -0.5, 3.0]])
+        f = Wt * c
+        losses = [(f * V.t()).sum(), (f * f).sum() + (V.t() * V.t()).sum()]
+        req, inter = [Wt, c, V], [f] + losses
+        other = [a, b]
+        call = lambda k, agg: mtl_backward(losses, [f], agg, tasks_params=[[V], [V]], shared_params=[Wt, c], retain_graph=True,  # noqa: E731
+                                           parallel_chunk_size=k)
+        m = 2
+    elif prog == "grad-weights":  # the aggregator's own weights require grad: the update is attached to a graph, it is accumulated all the same
+        h = a * b
+        outs = [h.sum() * c, (h * h).sum()]
+        req, inter = [a, b, c], [h] + outs
+        call = lambda k, agg: backward(outs, agg, inputs=req, retain_graph=True, parallel_chunk_size=k)  # noqa: E731
+        m = 2
+        wts = torch.tensor([1.0, -2.0], dtype=torch.float64, requires_grad=True)
+        mk_agg = lambda m_: RecordingAggregator(Constant(wts) if aggname == "const" else UPGrad(pref_vector=wts * wts))  # noqa: E731
+    elif prog == "empty-param":  # a requested parameter with zero elements: its .grad is created (empty) like any other
         e = torch.zeros(0, dtype=torch.float64, requires_grad=True)
         e2 = torch.zeros((2, 0), dtype=torch.float64, requires_grad=True)
         outs = [(a * c).sum() + e.sum(), a.sum() * c + e2.sum()]
